@@ -10,6 +10,31 @@ CLAIMED = {
    text="Proof: Ok <-> (address aligned for the target /\\ byte length converts exactly), truthful error variant, and totality (no panic, no UB) are Coq theorems for all sizes, power-of-two alignments, lengths and addresses, for both implementations of the alignment test, stated on the functions the translator regenerates from the working tree on every run. The tie to the code is translation plus an exact correspondence run (real crate vs extracted model on the type grid) and a monitor, proved equivalent to the statement, evaluated on every observation of the real crate.",
    note="Trusted: Coq kernel; translator on its subset (fail-closed, cross-checked by correspondence); ExtrOcamlBasic extraction + OCaml driver; harness; Base/Prims.v reading of core primitives. Not modelled: provenance/aliasing. 'never modifies the source' is observed on the grid, and holds of the model by construction (no store primitive occurs in the generated definitions).",
    ref="5/C02"),
+ "C01": dict(
+   technique="Coq theorems (unbounded) over the Gallina model regenerated from src/internal.rs, lib.rs, checked.rs, must.rs by the bm2coq translator; hand model of core's align_to with a tiling theorem; extracted-model correspondence and Coq-verified monitors (view, write-through, align-to tiling) over the castgrid harness",
+   text="Proof: for every flavour of borrowed cast (plain, panicking, checked, must_; shared and mutable; slice, reference, byte view, bytes_of) a returned view has the source's start address, exactly the source's byte length, the target's alignment and an extent equal to its own size, for all sizes, power-of-two alignments, lengths and addresses and both alignment tests; footprint equality and the store lemma give 'a write changes exactly the corresponding source byte'; the align-to split tiles the source for every admissible element offset. The theorems are stated on the definitions regenerated from the working tree on every run; the correspondence run observes the real crate (addresses, lengths, canaries, write-through maps, align_to splits) on the type grid and checks each observation with the extracted monitor and against the extracted model.",
+   note="Trusted: Coq kernel; translator on its subset; extraction + OCaml driver; harness; Base/Prims.v (creating a misaligned or over-long reference/slice is UB in the model). slice::align_to is core's: modelled (Model/StdSlice.v), validated by correspondence, not verified. Not modelled: provenance/aliasing.",
+   ref="5/C01"),
+ "C03": dict(
+   technique="Coq theorems (unbounded) over the translated by-value casts and unaligned reads; extracted-model correspondence over exhaustive 8/16-bit patterns, float/NaN/boundary patterns and every read offset",
+   text="Proof: try_cast returns exactly the source bytes when the sizes agree and SizeMismatch otherwise, cast panics exactly then, the round trip returns the original bytes, an unaligned read of exactly size_of::<T>() bytes returns those bytes at any address and any other length is SizeMismatch; none of them reads past the source (that is UB in the model, and the theorems say the outcome is a normal return). Stated on the regenerated definitions; the real crate is run on all 2^8 and 2^16 patterns of 1- and 2-byte types, float classes, walking bits and seeded random wider patterns, and reads at every offset 0..16.",
+   note="Trusted: as C02. 'read' in place of 'read_unaligned' is distinguished by the translator vocabulary (UB on misaligned addresses in the model), not by the correspondence on x86-64.",
+   ref="5/C03"),
+ "C07": dict(
+   technique="Coq theorems (unbounded) over the translated src/checked.rs: checked outcome = plain outcome followed by validity of every element; exhaustive scan of all 2^32 patterns through the crate's char predicate; extracted-model correspondence with real bool/char/NonZero targets",
+   text="Proof: each of the eight checked try_ forms returns Err(PodCastError e) when the plain cast returns Err e, Ok of the SAME view/bytes when the plain cast succeeds and every element is valid, InvalidBitPattern otherwise, for every validity predicate, all sizes, alignments, lengths and addresses. The validity predicates of bool/char/NonZero are the language's (Model/LangValid.v; char = the two scalar-value intervals, proved). The real crate is run with bool, char and all twelve NonZero targets: slices with exactly one invalid element at each position, every residue and length, all 2^8/2^16 patterns of the small targets, the char boundaries, and all 2^32 patterns of char's is_valid_bit_pattern (release build, each run).",
+   note="Trusted: as C02; Model/LangValid.v is the transcription of the language's validity rules.",
+   ref="5/C07"),
+ "C11": dict(
+   technique="Coq theorems (unbounded) over the translated panicking forms: each is the twin of its try_ form (incl. unreachability of unreachable!() in cast_ref/cast_mut/bytes_of); correspondence + monitor under catch_unwind on the castgrid harness",
+   text="Proof: for every borrowed and by-value panicking form (root and checked) the outcome is Ret v exactly when the try_ form is Ok v and the something_went_wrong panic carrying e exactly when it is Err e; the duplicated fast paths of cast_ref/cast_mut are proved consistent with try_cast_ref/_mut (their unreachable!() is unreachable for every valid reference). The real crate's panicking forms are run under catch_unwind next to their try_ forms on every grid case; the monitor compares the pair; source bytes are compared before/after. Owning-container forms are covered by the allocation harness (ledger after the caught panic).",
+   note="Trusted: as C02. Panics are observed as unwinding (catch_unwind) with the message class parsed; abort would terminate the harness and is reported as a harness error.",
+   ref="5/C11"),
+ "C14": dict(
+   technique="Coq theorems (unbounded) over the assertion constants and must_ functions regenerated from src/must.rs: assertions hold iff the runtime cast succeeds on every valid input, and then must_ = try_; real rustc compile verdicts for every ordered pair of grid types and each of the five functions; run-time and const-context results of every accepted instantiation",
+   text="Proof: for each of the five must_ functions the conjunction of its generated compile-time assertions is true if and only if the corresponding try_ cast returns Ok for every valid input of those types (both directions, using an explicit misaligned witness), and when it is true the must_ function returns exactly what the try_ function returns (no overflow in len * (size A / size B), no division by zero). The tie: one rustc run per function over all ordered pairs gives the real compile verdict of every instantiation, compared with the model's verdict and with the code-independent infallibility predicate; every accepted instantiation is then executed at run time (all lengths, residues) and in a const context next to the try_ form.",
+   note="Trusted: as C02; rustc's const evaluation of the assertions (post-monomorphisation errors parsed from the build output).",
+   ref="5/C14"),
 }
 
 checks = []
